@@ -132,14 +132,30 @@ where
                     m.glwe_encrypt_sk(&mut ct, &pt, &c.sk_glwe, &glwe_enc, &mut xe, &mut xa, scratch.borrow());
                     cts.push(ct);
                 }
-                let present = |i: usize| (w.aux >> (i % 32)) & 1 == 1 || i == 0;
+                // any subset of the slots, the empty one included (an eighth of the cases); a quarter of the cases also
+                // carry an entry keyed outside the addressed window, which the selection must ignore
+                let none = (w.aux >> 20) & 7 == 0;
+                let present = |i: usize| !none && (w.aux >> (i % 32)) & 1 == 1;
+                let mut outside = GLWE::alloc_from_infos(&glwe_infos);
+                pt.encode_coeff_i64(4001, b13, 0);
+                m.glwe_encrypt_sk(&mut outside, &pt, &c.sk_glwe, &glwe_enc, &mut xe, &mut xa, scratch.borrow());
                 let mut map: HashMap<usize, &mut GLWE<Vec<u8>>> = HashMap::new();
                 for (i, ct) in cts.iter_mut().enumerate() {
                     if present(i) {
                         map.insert(i, ct);
                     }
                 }
+                if (w.aux >> 23) & 3 == 0 {
+                    map.insert((1usize << bits) + ((w.aux >> 25) as usize % 9), &mut outside);
+                    cl.push("entry_outside_the_window");
+                }
+                if map.is_empty() {
+                    cl.push("empty_map");
+                }
+                // the receiver is a used one
                 let mut res: GLWE<Vec<u8>> = GLWE::alloc_from_infos(&glwe_infos);
+                pt.encode_coeff_i64(3999, b13, 0);
+                m.glwe_encrypt_sk(&mut res, &pt, &c.sk_glwe, &glwe_enc, &mut xe, &mut xa, scratch.borrow());
                 let q_ = <poulpy_hal::layouts::Module<B> as GLWEBlindSelection<u32, B>>::glwe_blind_selection_tmp_bytes(m, &res, &kp);
                 <poulpy_hal::layouts::Module<B> as GLWEBlindSelection<u32, B>>::glwe_blind_selection(m, &mut res, map, &kp, start, bits, spw("glwe_blind_selection", q_, &mut scratch));
                 m.glwe_decrypt(&res, &mut pt, &c.sk_glwe, scratch.borrow());
